@@ -191,3 +191,16 @@ Theorem native_conc_machines_agree : forall (g : NativeHist.config) (progs : lis
   run_sched zmachine (init_config zmachine (ninit Z 0 g) progs) sched =
   C05_conc.zcfg (run_sched lmachine (init_config lmachine (C05_conc.linit g) progs) sched).
 Proof. exact C05_conc.zrun. Qed.
+
+(* (b') At quiescence the histogram accounts for every observation ever made, by VALUE: the sample count is the
+   number of Observe calls of the program and zero bucket + all populations is the number of its non-NaN
+   observations (AV = the values of all Observe calls of the program; on lmachine the hot set's counter IS a
+   permutation of AV, C05_conc.quiescent_values_L).  Which bucket each value sits in is the part not proved. *)
+Theorem native_conc_quiescent_values_partial : forall (g : NativeHist.config) (progs : list (list nop)) (sched : list Z),
+  let c := run_sched zmachine (init_config zmachine (ninit Z 0 g) progs) sched in
+  all_done zmachine c = true ->
+  let h := sh c in let hot := nget Z h (nh_hot Z h) in
+  let AV := C05_conc.obs_vals (concat progs) in
+  ns_cnt Z hot = zlen AV /\
+  ns_zb Z hot + zsum (map snd (ns_pos Z hot)) + zsum (map snd (ns_neg Z hot)) + nan_count AV = zlen AV.
+Proof. exact C05_conc.quiescent_values_Z. Qed.
